@@ -109,6 +109,29 @@ unsafe fn o_drop(p: *const ()) {
     drop(Arc::from_raw(p as *const CountingWaker))
 }
 
+// ---- a caller waker whose DATA POINTER IS NULL: an executor that keeps its state in statics (single task, embedded).  A
+// valid RawWaker; its clone / wake / drop functions are as real as anyone's (here they count on the first original) ----
+static S_ORIG: AtomicUsize = AtomicUsize::new(0);
+static S_VT: RawWakerVTable = RawWakerVTable::new(s_clone, s_wake, s_wake_by_ref, s_drop);
+static WORLD_NO: AtomicUsize = AtomicUsize::new(0);
+unsafe fn s_ptr() -> *const CountingWaker {
+    S_ORIG.load(SeqCst) as *const CountingWaker
+}
+unsafe fn s_clone(_: *const ()) -> RawWaker {
+    Arc::increment_strong_count(s_ptr());
+    RawWaker::new(std::ptr::null(), &S_VT)
+}
+unsafe fn s_wake(_: *const ()) {
+    Wake::wake(Arc::from_raw(s_ptr()))
+}
+unsafe fn s_wake_by_ref(_: *const ()) {
+    let a = std::mem::ManuallyDrop::new(Arc::from_raw(s_ptr()));
+    Wake::wake_by_ref(&*a)
+}
+unsafe fn s_drop(_: *const ()) {
+    drop(Arc::from_raw(s_ptr()))
+}
+
 type Reply = Result<(), String>;
 
 struct Chan {
@@ -293,12 +316,20 @@ impl World {
         // thread 1: the poller
         {
             let sh2 = sh.clone();
-            // the first caller waker is an ordinary Arc waker, the second a borrowed view of one
+            // the first caller waker is an ordinary Arc waker - in every other world one with a null data pointer whose
+            // state lives in a static -, the second a borrowed view of one
+            let null_data = WORLD_NO.fetch_add(1, SeqCst) % 2 == 1;
+            S_ORIG.store(Arc::as_ptr(&origs[0]) as usize, SeqCst);
             let caller_wakers: Vec<Waker> = origs
                 .iter()
                 .enumerate()
                 .map(|(i, o)| {
-                    if i == 1 {
+                    if i == 0 && null_data {
+                        unsafe {
+                            Arc::increment_strong_count(Arc::as_ptr(o));
+                            Waker::from_raw(RawWaker::new(std::ptr::null(), &S_VT))
+                        }
+                    } else if i == 1 {
                         let b: &'static BorrowedW = Box::leak(Box::new(BorrowedW { inner: o.clone() }));
                         unsafe { Waker::from_raw(RawWaker::new(b as *const BorrowedW as *const (), &B_VT)) }
                     } else {
